@@ -348,7 +348,9 @@ fn amount_to_gbp(
     date: NaiveDate,
     fx_cache: Option<&FxCache>,
 ) -> Result<Decimal, CgtError> {
-    if amount.is_gbp() {
+    // Zero is zero in every currency: it needs no rate (a zero fee or tax loses its currency
+    // label when written as DSL, so it must not decide whether a ledger can be reported).
+    if amount.is_gbp() || amount.amount.is_zero() {
         return Ok(amount.amount);
     }
 
